@@ -12,6 +12,7 @@ import (
 	"go/token"
 	"go/types"
 	"strings"
+	"unicode"
 
 	"golang.org/x/tools/go/ssa"
 )
@@ -507,6 +508,31 @@ func (r *sccpRun) call(x *ssa.Call) bool {
 			return r.set(x, cConst(constant.MakeString(strings.ToLower(s))))
 		case "ToUpper":
 			return r.set(x, cConst(constant.MakeString(strings.ToUpper(s))))
+		}
+	}
+	// pure predicates and mappings of package unicode, folded on a constant rune
+	if callee.Pkg != nil && callee.Pkg.Pkg.Path() == "unicode" && len(args) == 1 && args[0].isPlain() && args[0].v.Kind() == constant.Int {
+		n, _ := constant.Int64Val(args[0].v)
+		ch := rune(n)
+		switch callee.Name() {
+		case "IsSpace":
+			return r.set(x, cConst(constant.MakeBool(unicode.IsSpace(ch))))
+		case "IsLetter":
+			return r.set(x, cConst(constant.MakeBool(unicode.IsLetter(ch))))
+		case "IsDigit":
+			return r.set(x, cConst(constant.MakeBool(unicode.IsDigit(ch))))
+		case "IsUpper":
+			return r.set(x, cConst(constant.MakeBool(unicode.IsUpper(ch))))
+		case "IsLower":
+			return r.set(x, cConst(constant.MakeBool(unicode.IsLower(ch))))
+		case "IsPunct":
+			return r.set(x, cConst(constant.MakeBool(unicode.IsPunct(ch))))
+		case "IsControl":
+			return r.set(x, cConst(constant.MakeBool(unicode.IsControl(ch))))
+		case "ToLower":
+			return r.set(x, cConst(constant.MakeInt64(int64(unicode.ToLower(ch)))))
+		case "ToUpper":
+			return r.set(x, cConst(constant.MakeInt64(int64(unicode.ToUpper(ch)))))
 		}
 	}
 	if callee.Pkg == nil || callee.Pkg.Pkg != r.s.p.Types || len(callee.Blocks) == 0 || r.depth >= r.s.maxDepth {
